@@ -48,6 +48,11 @@ func run(c *fw.Ctx) {
 	// 16 workers run side by side: keep each one's garbage collector off the other cores
 	runtime.GOMAXPROCS(2)
 	debug.SetGCPercent(400)
+	// The matcher recurses once per subject byte of a greedy run and stops itself at
+	// 10^6 levels, which takes a 256 MB goroutine stack (measured: 128 MB is too
+	// little). Go's default limit is 1 GB; with this one a guard that lets the
+	// recursion go deeper shows as a dead worker at 3*10^6 bytes instead of 6*10^6.
+	debug.SetMaxStack(256 << 20)
 	e := newEnv()
 	runClasses(c, e)
 	runSweeps(c, e)
